@@ -547,7 +547,7 @@ class StridedInterval:
         # back together for better precision. Note that it's an improvement from
         # the original WrappedIntervals paper.
 
-        nsplit = self._nsplit()
+        nsplit = self._psplit()
         if len(nsplit) == 1:
             # preserve the highest bit :-)
             highest_bit_set = nsplit[0].lower_bound > StridedInterval.signed_max_int(nsplit[0].bits)
@@ -566,10 +566,11 @@ class StridedInterval:
             return StridedInterval(
                 bits=self.bits, lower_bound=lower, upper_bound=upper, stride=stride, uninitialized=self.uninitialized
             )
-        a = nsplit[0]._rshift_arithmetic(shift_amount)
-        b = nsplit[1]._rshift_arithmetic(shift_amount)
+        ret = nsplit[0]._rshift_arithmetic(shift_amount)
+        for piece in nsplit[1:]:
+            ret = ret.union(piece._rshift_arithmetic(shift_amount))
 
-        return a.union(b)
+        return ret
 
     #
     # Comparison operations
